@@ -3453,6 +3453,13 @@ class Norm:
                 parts = _seq_parts(st)
                 if parts is not None:
                     st = ("call", "vec+", parts)
+            if not (info or {}).get("rep") and st[0] == "if":
+                # `#x` with x = if c { ts } else { quote!() }  is  `#x` with x = c.then(|| ts): nothing is emitted for None as for the empty stream
+                EMPTY = ("tpl", "quote", "", [])
+                if st[3] == EMPTY and st[2] != EMPTY:
+                    st = _mk_then(st[1], st[2])
+                elif st[2] == EMPTY and st[3] != EMPTY:
+                    st = _mk_then(_not(st[1]), st[3])
             if st[0] == "tpl" and st[1] == "quote" and not (info or {}).get("rep"):
                 # a token stream built by another quote! and interpolated as a whole: its tokens stand in its place
                 base = len(slots)
